@@ -51,7 +51,7 @@ class Ctx:
             self.env[p] = t
 
 
-RESERVED = {'left', 'right', 'at', 'in', 'fix', 'end', 'fun', 'forall',
+RESERVED = {'v_', 'left', 'right', 'at', 'in', 'fix', 'end', 'fun', 'forall',
             'exists', 'match', 'with', 'then', 'else', 'let', 'return', 'as',
             'Type', 'Prop', 'Set', 'pair', 'fst', 'snd', 'nil', 'cons', 'S', 'O',
             'tt', 'true', 'false', 'None', 'Some', 'inl', 'inr', 'st_', 'i_'}
@@ -70,7 +70,11 @@ class Mangle(ast.NodeTransformer):
 
 
 class Translator:
-    def __init__(self, path, registry=None, prefix=''):
+    def __init__(self, path, registry=None, prefix='', fold_aug=False):
+        # fold_aug: emit `a[i] op= e` as `upd1f a i (fun v_ => v_ op e)` so that the
+        # array variable occurs once per statement (keeps long update chains
+        # linear under zeta/conversion)
+        self.fold_aug = fold_aug
         self.path = path
         self.src = open(path).read()
         self.tree = Mangle().visit(ast.parse(self.src))
@@ -612,6 +616,8 @@ class Translator:
             v, tv = self.expr(c, value, 'F')
             if tv != 'F':
                 self.bad(s, "store of non-scalar")
+            if op and self.fold_aug:
+                return f"let {a} := upd1f {a} {i} (fun v_ => (v_ {op} {v})%F) in\n"
             if op:
                 v = f"(({a} {i}) {op} {v})%F"
             return f"let {a} := upd1 {a} {i} {v} in\n"
@@ -623,6 +629,8 @@ class Translator:
             v, tv = self.expr(c, value, 'F')
             if tv != 'F':
                 self.bad(s, "store of non-scalar")
+            if op and self.fold_aug:
+                return f"let {a} := upd3f {a} {idx} (fun v_ => (v_ {op} {v})%F) in\n"
             if op:
                 v = f"(({a} {idx}) {op} {v})%F"
             return f"let {a} := upd3 {a} {idx} {v} in\n"
@@ -708,11 +716,63 @@ class Translator:
             lo, hi = self.index(c, args[0]), self.index(c, args[1])
         return lo, hi, step
 
+    def try_unroll(self, c, s):
+        """`for k in range(<literal>)` with at most 8 iterations and a body of
+        plain (augmented) assignments is unrolled at translation time, the
+        loop variable replaced by its literal value (integer arithmetic on
+        literals is folded).  Returns the text or None."""
+        it = s.iter
+        if not (isinstance(it, ast.Call) and isinstance(it.func, ast.Name) and it.func.id == 'range'
+                and 1 <= len(it.args) <= 2 and all(isinstance(a, ast.Constant)
+                                                   and isinstance(a.value, int) for a in it.args)):
+            return None
+        lo, hi = (0, it.args[0].value) if len(it.args) == 1 else (it.args[0].value, it.args[1].value)
+        if not (0 <= hi - lo <= 8) or not isinstance(s.target, ast.Name):
+            return None
+        if not all(isinstance(b, (ast.Assign, ast.AugAssign)) for b in s.body):
+            return None
+        var = s.target.id
+
+        class Sub(ast.NodeTransformer):
+            def visit_Name(self, node):
+                if node.id == var:
+                    return ast.copy_location(ast.Constant(self.k), node)
+                return node
+
+            def visit_BinOp(self, node):
+                node = self.generic_visit(node)
+                l, r = node.left, node.right
+                if isinstance(l, ast.Constant) and isinstance(r, ast.Constant) \
+                        and isinstance(l.value, int) and isinstance(r.value, int) \
+                        and not isinstance(l.value, bool) and not isinstance(r.value, bool):
+                    if isinstance(node.op, ast.Add):
+                        return ast.copy_location(ast.Constant(l.value + r.value), node)
+                    if isinstance(node.op, ast.Sub):
+                        return ast.copy_location(ast.Constant(l.value - r.value), node)
+                    if isinstance(node.op, ast.Mult):
+                        return ast.copy_location(ast.Constant(l.value * r.value), node)
+                return node
+        import copy as _copy
+        stmts = []
+        for k in range(lo, hi):
+            sub = Sub()
+            sub.k = k
+            for b in s.body:
+                nb = sub.visit(_copy.deepcopy(b))
+                if any(isinstance(n, ast.Name) and n.id == var and isinstance(n.ctx, ast.Store)
+                       for n in ast.walk(nb)):
+                    return None
+                stmts.append(ast.fix_missing_locations(nb))
+        return self.block(c, stmts, '')
+
     def forstmt(self, c, s):
         if s.orelse:
             self.bad(s, "for-else")
         if not isinstance(s.target, ast.Name):
             self.bad(s, "loop target must be a name")
+        un = self.try_unroll(c, s)
+        if un is not None:
+            return un
         lv = s.target.id if s.target.id != '_' else 'it_'
         lo, hi, step = self.range_args(c, s)
         assigned = self.assigned(s.body)
@@ -809,8 +869,9 @@ class Translator:
         c = Ctx(self, coqname[len(self.prefix):] if coqname.startswith(self.prefix) else coqname,
                 {p: types[p] for p in params})
         c.fname = name
-        mutated = [n for n in self.assigned(fn.body)
-                   if n in params and types[n] in ARR]
+        # returned in PARAMETER order (call sites unpack in that order)
+        _as = self.assigned(fn.body)
+        mutated = [n for n in params if n in _as and types[n] in ARR]
         has_ret = isinstance(fn.body[-1], ast.Return)
         if has_ret:
             body = self.block(c, fn.body, '')
